@@ -191,6 +191,50 @@ fn check(c: &CrashCase, obs: &mut O) -> Verdict {
         crate::engine::heartbeat();
     }
     if three_run > 0 { obs.class("three-run:crash-then-shorter-complete-write"); }
+    // ---- two-crash variant: a first interrupted write leaves whatever it leaves (a temporary file), then the re-download of the next
+    // run is interrupted late in the file as well; the live cache file must still never hold a cut-off observation.
+    let mut two_crash = 0u64;
+    for b in (total.saturating_sub(45)..total).filter(|b| *b > 0) {
+        let _ = std::fs::remove_dir_all(&dir);
+        let _ = std::fs::create_dir_all(&dir);
+        { let mut first_of: BTreeMap<u64, std::path::PathBuf> = BTreeMap::new(); for (n, bts, ino) in &template_files { match first_of.get(ino) { Some(orig) if *ino != 0 => { let _ = std::fs::hard_link(orig, dir.join(n)); } _ => { let _ = std::fs::write(dir.join(n), bts); first_of.insert(*ino, dir.join(n)); } } } for (n, t) in &template_links { let _ = std::os::unix::fs::symlink(t, dir.join(n)); } }
+        for p in [CrashPoint::AfterBytes((total / 2).max(1)), CrashPoint::AfterBytes(b)] {
+            acb::util::date::set_todays_date_for_test(c.today);
+            set_crash_point(Some(p.clone()));
+            let calls = Rc::new(RefCell::new(BTreeMap::new()));
+            let r = std::panic::catch_unwind(std::panic::AssertUnwindSafe(|| { let mut l = loader(&dir, &cal, c.today, &calls); l.blocking_get_effective_usd_cad_rate(c.requested) }));
+            set_crash_point(None);
+            if let Err(e) = r { if e.downcast_ref::<SimulatedCrash>().is_none() { let _ = std::fs::remove_dir_all(&dir); return Verdict::Fail(format!("unexpected panic while writing the cache at {:?} (second of two interrupted runs)", p)); } }
+        }
+        let _ = take_step_log();
+        let text = String::from_utf8_lossy(&std::fs::read(dir.join(format!("rates-{}.csv", c.year))).unwrap_or_default()).to_string();
+        let mut dates_present: Vec<Date> = text.lines().filter_map(|l| l.split(',').next().and_then(crate::gen::parse_date)).collect();
+        dates_present.sort(); dates_present.dedup();
+        acb::util::date::set_todays_date_for_test(later_today);
+        let calls3 = Rc::new(RefCell::new(BTreeMap::new()));
+        let mut l3 = loader(&dir, &cal, later_today, &calls3);
+        let mut looks: Vec<Date> = dates_present.iter().rev().take(3).cloned().collect();
+        if let Some(last) = dates_present.last() { looks.push(*last + Duration::days(1)); }
+        looks.push(c.requested);
+        for d in looks {
+            match guard(|| l3.blocking_get_effective_usd_cad_rate(d)) {
+                Err(pn) => { let _ = std::fs::remove_dir_all(&dir); return Verdict::Fail(format!("panic in the later run after two interrupted writes (second at byte {b}): {}", pn.sig())); }
+                Ok(Ok(r)) => {
+                    let truth = c.cal.published(r.date);
+                    if truth != Some(r.foreign_to_local_rate) {
+                        let tail: String = text.chars().rev().take(60).collect::<String>().chars().rev().collect();
+                        let _ = std::fs::remove_dir_all(&dir);
+                        return known_or_fail("F-14a", format!("two cache writes in a row interrupted (after {} and after {b} of {total} bytes; prior cache: {}); a later run looking up {d} computes with {} for {}, the bank published {:?}; cache file now ends with {:?}", (total / 2).max(1), if c.prior_today.is_some() { "older complete file" } else { "none" }, r.foreign_to_local_rate, r.date, truth, tail));
+                    }
+                }
+                Ok(Err(_)) => {}
+            }
+        }
+        two_crash += 1;
+        obs.sub_evals += 1;
+        crate::engine::heartbeat();
+    }
+    if two_crash > 0 { obs.class("two-crash:left-over-temporary-file-then-second-interrupted-write"); }
     let _ = std::fs::remove_dir_all(&dir);
     for (k, v) in outcomes { obs.class(format!("{k}(x{})", if v > 1000 { ">1000" } else if v > 100 { ">100" } else { "<=100" })); }
     obs.class(format!("steps:{}", steps.join("+")));
@@ -199,7 +243,7 @@ fn check(c: &CrashCase, obs: &mut O) -> Verdict {
 }
 
 pub fn def() -> PropDef {
-    let mut d = PropDef::new("C14", "fault enumeration: for each generated year content (50-366 rows; rates with 1-10 decimals, below and above 1, zero placeholders for unpublished days) and prior cache state (none / the directory exactly as an earlier complete run of the product left it, hard links and left-over files included, or with the year's file reached through a symbolic link), a run that downloads the year is interrupted at EVERY byte offset of the cache file write (0..len, via the verif_hooks CrashWriter) and at every named step boundary of the write procedure; after each crash a fresh loader (today + 3 days, remote = published calendar) looks up the last three dates present in the file, the first missing date, the interrupted run's date and 5 random dates. In addition, for the last 60 byte offsets of each content: crash, then a COMPLETE run whose download is a few bytes shorter (the bank no longer reports four early observations, nothing else changes), then the look-ups. Violation = a look-up returns a rate that differs from the published rate of the date it carries. Non-trivial = crash point strictly inside a row (file does not end in a newline). Distinct = distinct (content, crash point).");
+    let mut d = PropDef::new("C14", "fault enumeration: for each generated year content (50-366 rows; rates with 1-10 decimals, below and above 1, zero placeholders for unpublished days) and prior cache state (none / the directory exactly as an earlier complete run of the product left it, hard links and left-over files included, or with the year's file reached through a symbolic link), a run that downloads the year is interrupted at EVERY byte offset of the cache file write (0..len, via the verif_hooks CrashWriter) and at every named step boundary of the write procedure; after each crash a fresh loader (today + 3 days, remote = published calendar) looks up the last three dates present in the file, the first missing date, the interrupted run's date and 5 random dates. In addition, for the last 60 byte offsets of each content: crash, then a COMPLETE run whose download is a few bytes shorter (the bank no longer reports four early observations, nothing else changes), then the look-ups; and for the last 45 byte offsets: a first write interrupted half way (leaving its temporary file), then the re-download interrupted at that offset, then the look-ups. Violation = a look-up returns a rate that differs from the published rate of the date it carries. Non-trivial = crash point strictly inside a row (file does not end in a newline). Distinct = distinct (content, crash point).");
     d.level = "fault_enumeration";
     d.exhaustive = true;
     d.assumptions = vec!["crash model: operations persist in program order (what the hook sees); a filesystem that reorders un-synced writes behind a rename is outside this model", "byte offsets are exhaustive per generated content; contents are sampled"];
